@@ -180,6 +180,10 @@ def gen_gate(ctx, n):
             TWIN = 9 - (1 << 63)
             pre = [100 + 16 * j + r for j in range(8) for r in (0, 2, 3, 4)]
             keys = [9, 9, TWIN, 7000 + rng.randrange(50) * 16, 25]
+            if rng.random() < 0.6:
+                # lookups of keys that are ALREADY there, in buckets whose child bucket (b + 8) gets initialised while the lookup runs:
+                # 104 + 16j lies in bucket 0 of 8 and in bucket 8 of 16; 25 / 7000.. make the table double and touch new buckets
+                keys = [104 + 16 * rng.randrange(8), 104 + 16 * rng.randrange(8), 100 + 16 * rng.randrange(8), 8 + 16 * rng.randrange(1, 40), 7000 + rng.randrange(50) * 16, 24]
             c = [kind, bc, len(pre)] + pre + [T]
             longb = True
         else:
@@ -196,6 +200,18 @@ def gen_gate(ctx, n):
         L = rng.randint(40, 600)
         while len(sched) < L:
             sched += [rng.randrange(T)] * (rng.choice([1, 3, 10, 40, 120]) if longb else rng.randint(1, 12))
+        cases.append(c + sched)
+    # directed "stale reader": a lookup of a key that is already there reads the bucket count, then the table doubles and the key's new
+    # bucket (b + 8) gets its dummy node, then the lookup goes on — it must still find the key
+    for _ in range(max(40, n // 12)):
+        kind = rng.choice([0, 1, 1, 1])
+        pre = [100 + 16 * j + r for j in range(8) for r in (0, 2, 3, 4)]
+        target = 104 + 16 * rng.randrange(8)
+        toucher = rng.choice([8 + 16 * rng.randrange(1, 40), 104 + 16 * rng.randrange(8)])
+        t0 = [3, target] * rng.randint(1, 2)
+        t1 = [1, 7001 + 16 * rng.randrange(50)] + [rng.choice([1, 3]), toucher] + ([1, 25] if rng.random() < 0.5 else [])
+        c = [kind, 8, len(pre)] + pre + [2, len(t0) // 2] + t0 + [len(t1) // 2] + t1 + [-1]
+        sched = [0] * rng.randint(1, 14) + [1] * rng.choice([40, 120, 300, 600]) + [0] * 50 + [1] * 600
         cases.append(c + sched)
     return cases
 
